@@ -47,7 +47,7 @@ func (n Name) Node() *Node {
 		if tag == 0 {
 			tag = 0x13
 		}
-		rdns = append(rdns, Set(Seq(OID(a.OID), Str(tag, a.Value))))
+		rdns = append(rdns, Set(Seq(OID(a.OID), Prim(tag, encodeDirectoryString(tag, a.Value)))))
 	}
 	return Seq(rdns...)
 }
@@ -275,4 +275,33 @@ func (c *Cert) WithSignature(sig []byte) *Cert {
 	der, rm := Encode(d.Node("c"), EncDER)
 	d.DER, d.TBS, d.SigValue = der, rm["c.tbs"], rm["c.sigValue"]
 	return &d
+}
+
+// encodeDirectoryString writes the (Go, i.e. UTF-8) value in the character encoding of the ASN.1 string type:
+// TeletexString (20) as ISO 8859-1, BMPString (30) as UTF-16BE, UniversalString (28) as UCS-4, the others as is.
+func encodeDirectoryString(tag byte, v string) []byte {
+	switch tag {
+	case 0x14:
+		var out []byte
+		for _, r := range v {
+			if r > 0xFF {
+				r = '?'
+			}
+			out = append(out, byte(r))
+		}
+		return out
+	case 0x1E:
+		var out []byte
+		for _, r := range v {
+			out = append(out, byte(r>>8), byte(r))
+		}
+		return out
+	case 0x1C:
+		var out []byte
+		for _, r := range v {
+			out = append(out, byte(r>>24), byte(r>>16), byte(r>>8), byte(r))
+		}
+		return out
+	}
+	return []byte(v)
 }
